@@ -171,8 +171,16 @@ def run_obligations(tier, seed):
                 if len(so) != 1 or len(ptr) != 1:
                     viol_meta = ask(pc, True, "the log is not split off / the snapshot pointer entry is not installed", "log-not-adjusted", evs)
                 elif isinstance(so[0][2], list) and so[0][2]:
-                    want = (dthru + 1) if with_dt else z3.BitVecVal(0, 64)
-                    viol_meta = ask(pc, rseval.to_bv(so[0][2][0]) != want, "the log is split off at an index other than delete_through + 1", "log-not-adjusted", evs)
+                    if with_dt:
+                        viol_meta = ask(pc, rseval.to_bv(so[0][2][0]) != dthru + 1, "the log is split off at an index other than delete_through + 1", "log-not-adjusted", evs)
+                    else:
+                        # delete_through = None (the local log ends at or below the snapshot): async-raft's contract is "all entries of the log are to be
+                        # deleted". RaftLogManager::split_off removes a file iff the split index reaches its end, and the file that takes the appends
+                        # ends at u64::MAX (LogRangeWrap::get_log_range_end_index): only that index removes it. Anything smaller keeps the old file as
+                        # the append target and the entry behind the snapshot is refused (finding S08-c, fixed cea1ae5).
+                        viol_meta = ask(pc, rseval.to_bv(so[0][2][0]) != z3.BitVecVal((1 << 64) - 1, 64),
+                                        "delete_through = None (the follower's log ends at or below the snapshot): the log is split off at an index that leaves the old log file in place - "
+                                        "it stays the append target and the entry behind the snapshot is refused", "log-not-emptied", evs)
         out = []
         for name, viol, what in (("s08_1_installed_state_is_served", viol_state, "every record of the installed snapshot reaches the state machine, then load-complete"),
                                  ("s08_2_catalogue_membership_log", viol_meta, "catalogue entry, membership of the header, log split-off and snapshot pointer entry"),
@@ -207,14 +215,30 @@ def run_c04_order(tier, seed):
 def run(tier, seed):
     t0 = time.time()
     info = {"files": FILES, "solver": "z3 " + z3.get_version_string(), "cmd": "python3-vt -m lib.main C08 (rs2smt/c08.py)"}
-    obligations = [o for o in run_obligations(tier, seed) if not o["harness"].startswith("s04_")]
+    obligations = run_obligations(tier, seed)
+    for o in obligations:
+        if o["harness"].startswith("s04_"):
+            # the same write-order obligation C04 claims, read for C08: a follower killed anywhere inside an installation and restarted must not
+            # come back with a log that claims the snapshot's index while no catalogued snapshot (and no data) stands behind it - the leader's
+            # prev-log check would match and replication would go on behind the snapshot: the node never gets the data in front of it
+            o["harness"] = "s08_7_installation_interrupted"
+            if o.get("verdict") == "violation":
+                o["message"] += " - the restarted follower reports the snapshot's index as its last log index, the leader goes on behind it and the data in front of it never arrives"
     import os
     from .common import native_scenarios
     if not os.environ.get("VERIF_NO_NATIVE"):
         for ob in obligations:
             if ob.get("verdict") != "violation":
                 continue
-            if "installed-snapshot-not-loaded" in ob.get("tags", []) or "installed-snapshot-no-load-complete" in ob.get("tags", []):
+            if "log-not-emptied" in ob.get("tags", []):
+                rr = native_scenarios("C08", "violation", ["install_beyond_leftover_log_then_append"], ob["message"], {"obligation": ob["harness"], "model": ob.get("counterexample")})
+                ob["replay_path"] = rr["path"]
+                ob["replay"] = {"path": rr["path"], "outcome": rr["outcome"], "message": rr["message"]}
+                if rr["outcome"] != "reproduced":
+                    ob.update({"verdict": "inconclusive", "message": "engine-S counterexample (%s) did not reproduce on a real node (%s %s)" % (ob["message"], rr["outcome"], rr["message"])})
+                else:
+                    ob["message"] = "%s [real node, through RaftStorage::{replicate_to_log, finalize_snapshot_installation}: %s]" % (ob["message"], rr["message"][:400])
+            elif "installed-snapshot-not-loaded" in ob.get("tags", []) or "installed-snapshot-no-load-complete" in ob.get("tags", []):
                 rr = native_scenarios("C08", "violation", ["install_then_serve"], ob["message"], {"obligation": ob["harness"], "model": ob.get("counterexample")})
                 ob["replay_path"] = rr["path"]
                 ob["replay"] = {"path": rr["path"], "outcome": rr["outcome"], "message": rr["message"]}
@@ -240,7 +264,7 @@ def run(tier, seed):
             else:
                 sob["replay"] = {"path": rr["path"], "outcome": "model-only", "message": "the fixed node scenario (interrupted longer transfer, then a complete one) does not show it: %s" % rr["message"][:200]}
         elif sob.get("verdict") == "discharged":
-            nv = native_scenarios("C08", "validate", ["install_after_interrupted_longer_transfer"])
+            nv = native_scenarios("C08", "validate", ["install_after_interrupted_longer_transfer", "install_beyond_leftover_log_then_append"])
             info["translator_validation_stream"] = {"outcome": nv["outcome"], "message": nv["message"], "path": nv["path"]}
             if nv["outcome"] != "passed":
                 sob.update({"verdict": "inconclusive", "message": "the obligation is discharged but a real node keeps bytes of an interrupted transfer: %s" % nv["message"]})
